@@ -20,6 +20,30 @@ CHECKS = {
         note="The joined-string parse is the oracle (the property is stated as that equality); its own correctness is C01's subject. Shapes are appended through their d() text, so their arcs are compared at six significant digits (known finding KF-ARC-D-6DIGITS of C07).",
         ref="5/C17",
     ),
+    "C09": dict(
+        technique="property-based testing + coverage-guided fuzzing (atheris): exhaustive truncation of command-pair strings, grammar-directed fault injection, raw-byte fuzzing, with exception-type / validity / reference-prefix oracles inside the target",
+        text="Every prefix of the 800 command-pair strings, thousands of single-fault mutations of grammar-directed strings (token deleted/duplicated/replaced, stray/control/non-ASCII characters, operands stripped, no leading move, bad flags), long inputs with a linear-time predicate, and (thorough) 16 atheris workers; each input must return or raise ValueError only, keep exactly the reference interpreter's longest-valid-prefix segments, have numeric points, and survive d(), d(relative), bbox(), length() and a shear. Exploration.",
+        note="Longest valid prefix is defined by harness/ref/pathref.py; comma-placement leniency and documented start-less fragments are judged on all clauses except exact segment equality; two fragment classes are known findings (known_findings.json).",
+        ref="5/C09",
+    ),
+    "C04": dict(
+        technique="property-based testing: grammar-directed transform lists and generated matrix/operation histories against an independent 6-tuple affine algebra",
+        text="Generated transform lists (all SVG 1.1 + CSS 2-D functions, optional arguments present/omitted, angle and length units, letter case, separators) compared entry-wise with the right-most-first product of elementary matrices; generated invertible matrices, points and pre_/post_ operation sequences compared with left/right multiplication, two-sided inverse, associativity with point application, identity neutrality. Exploration.",
+        note="Elementary matrices written from SVG 1.1 7.6 / CSS Transforms 1; math.sin/cos/tan trusted. mm/cm carry the known inch-constant finding (dual table); inch-family + px-family translation sums are a known finding.",
+        ref="5/C04",
+    ),
+    "C12": dict(
+        technique="property-based testing: exhaustive enumeration of the 14x14 unit pairs x 6 operators plus generated amounts against exact rational arithmetic",
+        text="All ordered unit pairs x {+,-,/,<,<=,==} x 8 amount pairs, all units x ppi x supplied/withheld context for value(), conversions, plus generated decimal spellings; expectations computed in fractions.Fraction from the CSS absolute-unit table; unresolvable lengths must stay symbolic, cross-family arithmetic must not return numbers. Exploration with an exhaustive finite part.",
+        note="Dual table: results matching the library's documented 6-digit inch constant are the known finding KF-INCH-CONSTANT (pinned by two tests); everything else is compared at 1e-12 relative.",
+        ref="5/C12",
+    ),
+    "C13": dict(
+        technique="property-based testing: exhaustive keyword table, exhaustive 3/4-digit hex, exhaustive per-channel setters, generated functional spellings and accessor histories against a transcribed table, colorsys and a 4-component model",
+        text="147 keywords + transparent x 4 letter cases, all 4096+65536 short hex strings, every value 0..255 written to every channel, generated rgb()/rgba()/percent/hsl()/hsla() spellings incl. out-of-range, fractional and negative arguments, and histories of up to 6 setter calls (components, packings, opacity, hue/saturation/lightness) with all getters compared after every step and Color(c.hex)==c. Exploration with exhaustive finite parts.",
+        note="Keyword table in harness/ref/colortable.py (three independent transcriptions agree); stdlib colorsys for HSL; 1-per-channel tolerance where CSS leaves rounding open; alpha handling of the rgb/bgr integer setters not judged.",
+        ref="5/C13",
+    ),
 }
 
 REASON_PENDING = "no check registered yet in this build; the design (DESIGN.md section 5) covers it with property-based testing"
